@@ -229,6 +229,11 @@ pub fn edge_cases() -> Vec<String> {
         "fn{r($:", "#($:", "fn f() { g($a: 1) }", "fn f() { g($a::b: 1) }", "fn f() { A { $a: 1 } }",
         "fn f(){'\\x\u{65e5}4'}", "fn f(){\"\\x\u{e9}\"}", "fn f(){'\\q'}", "fn f(){\"a\\q\u{e9}\"}", "fn f(){'\\u{110000}\u{e9}'}",
         "fn f(){\"\u{e9}\\q\"}", "const A: felt252 = '\u{e9}\\x';", "'\\x\u{65e5}4'",
+        // F6 (semantic leg): a const generic parameter of an extern type mentioning the type itself
+        "extern type A<const C: A>;", "extern type A<const C: A<1>>;",
+        "extern type A<const C: B>; extern type B<const C: A>;", "struct S<const C: S> {}",
+        "enum E<const C: E> { A }", "type T<const C: T> = u8;", "extern fn f<const C: f>() nopanic;",
+        "extern type A<T, impl I: X<A<T>>>;", "extern type A<+A<u8>>;", "extern type A<const C: [A; 1]>;",
     ]
     .into_iter()
     .map(String::from)
